@@ -79,6 +79,10 @@ def add_sites(repo: Repo, res: Result, rule: str, sites) -> int:
     return n
 
 
+def _node(x):
+    return x[1] if isinstance(x, tuple) else x
+
+
 class Ctx:
     def __init__(self, repo: Repo, res: Result, draw, M: Model) -> None:
         self.repo, self.res, self.draw, self.M = repo, res, draw, M
@@ -168,8 +172,8 @@ class Ctx:
                     unsure_fw = unsure_fw or f"the first argument `{norm(call.args[0], 40)}` is not recognised as the wrapped networkx graph"
             if not star:
                 problems.append("the caller's options are not forwarded (no **kwargs in the backend call)")
-            elif len(star) != 1 or not M.is_options(star[0].value):
-                unsure_fw = unsure_fw or f"`**{norm(star[0].value, 40)}` is not recognised as the caller's options"
+            elif len(star) != 1:
+                unsure_fw = unsure_fw or "several ** arguments in the backend call"
             forced = [k.arg for k in named if k.arg not in ("labels", "pos")]
             if forced:
                 problems.append(f"options {forced} are fixed by draw() itself")
@@ -188,70 +192,33 @@ class Ctx:
             self.unsure("C17.R5", "hand-off", unsure_fw, call)
         else:
             self.ok("C17.R5", "hand-off", f"draw_networkx({M.G}, **{M.kw}) on every path" + (f" ({len(calls)} exclusive calls)" if len(calls) > 1 else ""), call)
-        # ---- what draw() removes from / adds to the options
-        consumed: dict[str, list[ast.AST]] = {}
-        stored: dict[str, list[tuple[ast.AST, ast.expr | None]]] = {}
-        odd: list[str] = []
-        for c_, k in named_all:
-            if k.arg in ("labels", "pos"):
-                stored.setdefault(k.arg, []).append((c_, k.value))  # an explicit keyword of the backend call: set exactly when that call is made
-        if len([b for b in M.binds.get(M.kw, []) if not M._merge_update(b)]) > 1:
-            odd.append(f"`{M.kw}` is re-bound")
-        for name, bs in M.binds.items():
-            if len(bs) == 1 and bs[0].kind == "assign" and bs[0].value is not None:
-                fk = M.filtered_options(bs[0].value)
-                if fk is not None and M.is_options(bs[0].value.generators[0].iter.func.value):
-                    for k in fk:
-                        consumed.setdefault(k, []).append(bs[0].stmt)
-        for n in _walk_own(M.fn.body):
-            if isinstance(n, ast.Call) and isinstance(n.func, ast.Attribute) and M.is_options(n.func.value):
-                a = n.func.attr
-                if a == "pop":
-                    k = const_str(n.args[0]) if n.args else None
-                    if k is None:
-                        odd.append(f"`{norm(n, 50)}` removes an option that is not a constant name")
-                    else:
-                        consumed.setdefault(k, []).append(n)
-                elif a in ("update", "setdefault"):
-                    if a == "setdefault" and n.args and const_str(n.args[0]) is not None:
-                        stored.setdefault(const_str(n.args[0]), []).append((n, n.args[1] if len(n.args) > 1 else None))
-                    elif a == "update" and all(k.arg is not None for k in n.keywords) and (not n.args or (len(n.args) == 1 and isinstance(n.args[0], ast.Dict) and all(const_str(x) is not None for x in n.args[0].keys))):
-                        for k in n.keywords:
-                            stored.setdefault(k.arg, []).append((n, k.value))
-                        if n.args:
-                            for kk, vv in zip(n.args[0].keys, n.args[0].values):
-                                stored.setdefault(const_str(kk), []).append((n, vv))
-                    else:
-                        odd.append(f"`{norm(n, 50)}` changes options that cannot be named statically")
-                elif a in ("clear", "popitem", "__delitem__", "__setitem__"):
-                    odd.append(f"`{norm(n, 50)}` changes the options wholesale")
-            elif isinstance(n, ast.AugAssign) and isinstance(n.target, ast.Name) and M.is_options(ast.Name(id=n.target.id, ctx=ast.Load())):
-                if isinstance(n.op, ast.BitOr) and isinstance(n.value, ast.Dict) and all(k is not None and const_str(k) is not None for k in n.value.keys):
-                    for kk, vv in zip(n.value.keys, n.value.values):
-                        stored.setdefault(const_str(kk), []).append((n, vv))
-                else:
-                    odd.append(f"`{norm(n, 50)}` changes the options in a form that is not read")
-            elif isinstance(n, ast.Subscript) and M.is_options(n.value) and isinstance(n.ctx, (ast.Store, ast.Del)):
-                k = const_str(n.slice)
-                if k is None:
-                    odd.append(f"`{norm(n, 50)}` writes an option that is not a constant name")
-                elif isinstance(n.ctx, ast.Del):
-                    consumed.setdefault(k, []).append(n)
-                else:
-                    st = M.stmt_of(n)
-                    stored.setdefault(k, []).append((n, st.value if isinstance(st, (ast.Assign, ast.AnnAssign)) and not isinstance(getattr(st, "targets", [None])[0], ast.Tuple) else None))
+        # ---- what draw() removes from / adds to the options: symbolic evaluation of the dict spliced into the backend call
+        from .c17_options import OptionsEval
+
+        ev = OptionsEval(self)
+        for c_ in calls:
+            for k in c_.keywords:
+                if k.arg is None:
+                    ev.eval(k.value)
+                elif k.arg in ("labels", "pos"):
+                    ev.stored.setdefault(k.arg, []).append(((c_,), k.value))  # an explicit keyword: set exactly when that call is made
+        consumed: dict[str, list] = ev.consumed
+        stored: dict[str, list] = {k: [(nodes[-1], val, nodes) for nodes, val in items] for k, items in ev.stored.items()}
+        odd: list[str] = list(dict.fromkeys(ev.odd))
+        if not ev.passthrough and not odd and not problems and any(k.arg is None for c_ in calls for k in c_.keywords):
+            self.bad("C17.R5", "pass-through", "the dict spliced into the backend call does not contain the caller's options: other drawing options do not reach the backend", call)
         # `labels = None ... if given: labels = <...>` + `labels=labels`: the option is effectively set where the local gets a value
         for key_, items in list(stored.items()):
             new_items = []
-            for node_, val in items:
+            for node_, val, nodes_ in items:
                 if isinstance(val, ast.Name):
                     bs = M.binds.get(val.id, [])
                     nones = [b for b in bs if b.kind == "assign" and isinstance(b.value, ast.Constant) and b.value.value is None]
                     rest = [b for b in bs if b not in nones]
                     if nones and rest and all(b.kind == "assign" and b.value is not None for b in rest):
-                        new_items += [(b.stmt, b.value) for b in rest]
+                        new_items += [(b.stmt, b.value, (b.stmt,)) for b in rest]
                         continue
-                new_items.append((node_, val))
+                new_items.append((node_, val, nodes_))
             stored[key_] = new_items
         extra_c = sorted(set(consumed) - {"spacing", "aliases"})
         extra_s = sorted(set(stored) - {"pos", "labels"})
@@ -260,7 +227,7 @@ class Ctx:
         if extra_c or extra_s or missing_c or missing_s:
             parts = []
             if extra_c:
-                parts.append(f"draw() swallows the option(s) {extra_c} (`{norm(consumed[extra_c[0]][0], 50)}`)")
+                parts.append(f"draw() swallows the option(s) {extra_c} (`{norm(_node(consumed[extra_c[0]][0]), 50)}`)")
             if extra_s:
                 parts.append(f"draw() sets the option(s) {extra_s} itself")
             if missing_c:
@@ -273,7 +240,7 @@ class Ctx:
             if not (extra_c or extra_s) and (hidden or odd):
                 self.unsure("C17.R5", "options", "; ".join(odd + parts + ([f"`{norm(hidden[0], 50)}` receives the options but could not be flattened into draw()"] if hidden else [])), call)
             else:
-                self.bad("C17.R5", "options", "; ".join(parts) + ": other drawing options do not reach the backend unchanged", (consumed[extra_c[0]][0] if extra_c else call))
+                self.bad("C17.R5", "options", "; ".join(parts) + ": other drawing options do not reach the backend unchanged", (_node(consumed[extra_c[0]][0]) if extra_c else call))
         elif odd:
             self.unsure("C17.R5", "options", "; ".join(odd), call)
         else:
@@ -288,7 +255,7 @@ class Ctx:
                 else:
                     self.bad("C17.R5", what, f"'{key_}' is never handed to the backend", call, kind="dominance")
                 continue
-            fs = [self._presence_formula(n) for n, _v in stored[key_]]
+            fs = [self._presence_formula(nodes_) for _n, _v, nodes_ in stored[key_]]
             if any(f is None for f in fs):
                 self.unsure("C17.R5", what, f"the condition under which '{key_}' is set is not a test of the options", stored[key_][0][0])
                 continue
@@ -305,13 +272,12 @@ class Ctx:
                 self.bad("C17.R5", what, f"'{key_}' is not set under the condition that '{opt}' was given", stored[key_][0][0], kind="dominance")
             # removal on every path on which the option is present
             if opt in consumed:
-                cf = [self._presence_formula(n) for n in consumed[opt]]
+                cf = [TRUE if isinstance(n, tuple) else self._presence_formula(n) for n in consumed[opt]]
                 cf = [TRUE if (x is None and len(getattr(n, "args", [])) > 1) else x for x, n in zip(cf, consumed[opt])]
-                cf = [TRUE if isinstance(n, ast.stmt) and x is not None and x == TRUE else x for x, n in zip(cf, consumed[opt])]
                 if all(x is not None for x in cf) and not implies(present, f_or(cf)):
-                    self.bad("C17.R5", f"{opt} consumed", f"'{opt}' stays in the options on some path on which it was given: the backend receives an option it does not know", consumed[opt][0], kind="dominance")
+                    self.bad("C17.R5", f"{opt} consumed", f"'{opt}' stays in the options on some path on which it was given: the backend receives an option it does not know", _node(consumed[opt][0]), kind="dominance")
             if key_ == "labels":
-                self.label_store, self.label_value = stored[key_][0]
+                self.label_store, self.label_value = stored[key_][0][0], stored[key_][0][1]
                 if len(stored[key_]) > 1:
                     self.label_value = None
 
@@ -335,9 +301,13 @@ class Ctx:
                                 return True
         return False
 
-    def _presence_formula(self, node: ast.AST):
-        """Path condition of `node` as a formula over `present:<option>` atoms ('the caller passed this option'); None if other tests occur."""
+    def _presence_formula(self, node):
+        """Path condition of `node` (or of all nodes of a tuple) as a formula over `present:<option>` atoms ('the caller passed this
+        option'); None if other tests occur."""
         M = self.M
+        if isinstance(node, tuple):
+            fs = [self._presence_formula(n) for n in node]
+            return None if any(f is None for f in fs) else f_and(fs)
 
         def sub(e: ast.expr):
             if isinstance(e, ast.Compare) and len(e.ops) == 1:
@@ -350,11 +320,18 @@ class Ctx:
                     if k is not None:
                         a = atom(f"present:{k}")
                         return a if isinstance(op, ast.IsNot) else f_not(a)
+                if isinstance(op, (ast.Is, ast.IsNot, ast.Eq, ast.NotEq)) and isinstance(r, (ast.Name, ast.Attribute)):
+                    # a sentinel default: x = kwargs.pop('k', SENTINEL); x is not SENTINEL
+                    k = self._option_of(l, default=norm(r))
+                    if k is not None:
+                        a = atom(f"present:{k}")
+                        return a if isinstance(op, (ast.IsNot, ast.NotEq)) else f_not(a)
             k = self._option_of(e)
             if k is not None:
                 return atom(f"present:{k}")
             return None
 
+        self._presence_sub = sub
         cs = M.history_conds(node)
         fs = []
         for e, pol in cs:
@@ -365,15 +342,28 @@ class Ctx:
             return None
         return f
 
-    def _option_of(self, e: ast.expr) -> str | None:
+    def is_presence_test(self, e: ast.expr) -> bool:
+        """`e` only tests whether options were given ('aliases' in kwargs, aliases is not None, aliases is not SENTINEL, ...)"""
+        if not hasattr(self, "_presence_sub"):
+            self._presence_formula(self.M.fn.body[0])
+        f = to_formula(e, self._presence_sub)
+        ats = atoms_of(f)
+        return bool(ats) and all(a.startswith("present:") for a in ats)
+
+    def _option_of(self, e: ast.expr, default: str | None = None) -> str | None:
+        """option name if `e` is (a local bound to) a read of the option that yields None / the given default when it is absent"""
         M = self.M
+        v = e
         src = M.option_source(e)
         if src is None and isinstance(e, ast.Name):
             v = M.single_value(e.id)
             src = M.option_source(v) if v is not None else None
-        if src is not None and src[1] in ("get", "get-default", "pop-default"):
-            return src[0]
-        return None
+        if src is None or src[1] not in ("get", "get-default", "pop-default"):
+            return None
+        dflt = v.args[1] if isinstance(v, ast.Call) and len(v.args) > 1 else None
+        if default is None:
+            return src[0] if dflt is None or (isinstance(dflt, ast.Constant) and dflt.value is None) else None
+        return src[0] if dflt is not None and norm(dflt) == default else None
 
     # ------------------------------------------------------------------ R4
     def existence_check(self) -> None:
